@@ -284,7 +284,7 @@ def libErr (fn : String) : EvalM N α := throw (.lib fn)
 def libMap (r : Rec N) (v : Option (Val N)) (f : Val N) : EvalM N (Option (Val N)) := do
   let xs := forceArr v
   let whole : Val N := .arr xs
-  let argc := clamp (paramCount f) 1 3
+  let argc := clamp (paramCount f) 0 3
   let rec go : Nat → List (Val N) → EvalM N (List (Val N))
     | _, [] => pure []
     | i, x :: rest => do
@@ -301,7 +301,7 @@ def libMap (r : Rec N) (v : Option (Val N)) (f : Val N) : EvalM N (Option (Val N
 def libFilterL (r : Rec N) (v : Option (Val N)) (f : Val N) : EvalM N (List (Val N)) := do
   let xs := forceArr v
   let whole : Val N := .arr xs
-  let argc := clamp (paramCount f) 1 3
+  let argc := clamp (paramCount f) 0 3
   let rec go : Nat → List (Val N) → EvalM N (List (Val N))
     | _, [] => pure []
     | i, x :: rest => do
